@@ -150,8 +150,7 @@ def rec_tokens(rec: dict, platform: str, version: str = "0") -> List[str]:
     names = lib_port_names(rec["proto"], platform, version) if rec["proto"] in (6, 17) else {}
     parts = [str(rec["seq"]) if rec.get("seq") else "", rec["action"], proto_token(rec, platform),
              render_addr(rec["src"], platform), render_port(rec.get("sp"), names),
-             render_addr(rec["dst"], platform), render_port(rec.get("dp"), names),
-             " ".join(rec.get("flags") or []), " ".join(rec.get("opq") or []), " ".join(rec.get("logs") or [])]
+             render_addr(rec["dst"], platform), render_port(rec.get("dp"), names)] + [" ".join(o) for o in option_groups(rec)]
     return [t for part in parts if part for t in part.split(" ")]
 
 
@@ -237,8 +236,17 @@ def validate_rec(rec, platform: str) -> None:
         raise Invalid()
 
 
+def option_groups(rec: dict):
+    """Option tokens in text order: flags, opaque options, log keyword - or the log keyword first ('lf'),
+    which is the usual Cisco order for 'log time-range X' / 'log-input fragments'."""
+    groups = [list(rec.get("flags") or []), list(rec.get("opq") or []), list(rec.get("logs") or [])]
+    if rec.get("lf"):
+        groups = [groups[2], groups[0], groups[1]]
+    return groups
+
+
 def rec_rule(rec: dict) -> R.Rule:
-    opts = tuple(rec.get("flags") or []) + tuple(rec.get("opq") or []) + tuple(rec.get("logs") or [])
+    opts = tuple(t for grp in option_groups(rec) for t in grp)
     return R.Rule(rec.get("seq") or 0, rec["action"], rec["proto"], addr_ref(rec["src"]), addr_ref(rec["dst"]),
                   port_spec(rec.get("sp")), port_spec(rec.get("dp")), opts)
 
@@ -319,8 +327,25 @@ def addr_st(draw, kmax: int = 4, groups: bool = False, members: bool = True, kin
     return {"k": "group", "b": 0, "w": 0, "n": name, "m": mem}
 
 
+_ALIEN = None
+
+
+def named_anywhere():
+    """Port numbers that carry a name in at least one platform / version table of the library."""
+    global _ALIEN
+    if _ALIEN is None:
+        vals = set()
+        for platform in ("asa", "ios", "nxos"):
+            for version in ("0", "15.2(02)SY"):
+                for proto in (6, 17):
+                    vals.update(lib_port_names(proto, platform, version).values())
+        _ALIEN = sorted(vals)
+    return _ALIEN
+
+
 def port_value_st(names: Optional[Dict[str, int]] = None):
-    opts = [st.integers(1, 6), st.integers(1, 6), st.sampled_from([1, 2, 65534, 65535]), st.integers(1, 65535)]
+    opts = [st.integers(1, 6), st.integers(1, 6), st.sampled_from([1, 2, 65534, 65535]), st.integers(1, 65535),
+            st.sampled_from(named_anywhere())]
     if names:
         opts.append(st.sampled_from(sorted(set(names.values()))))
         opts.append(st.sampled_from(sorted(set(names.values()))))
@@ -386,6 +411,8 @@ def ace_st(draw, platform: str = "ios", version: str = "0", kmax: int = 4, group
         rec["logs"] = [draw(st.sampled_from(["log", "log-input"]))]
     if opaque and draw(st.integers(0, 9)) < 2:
         rec["opq"] = draw(st.sampled_from([["fragments"], ["dscp", "ef"], ["precedence", "critical"]]))
+    if rec["logs"] and (rec["flags"] or rec["opq"]) and draw(st.booleans()):
+        rec["lf"] = True
     if noise and draw(st.integers(0, 9)) < 3:
         rec["ws"] = draw(st.lists(st.integers(0, 20), min_size=1, max_size=6))
     return rec
@@ -468,9 +495,19 @@ def _addr_from_pair(draw, pair, kmax):
 
 @st.composite
 def mutate_port(draw, p: Optional[dict], platform: str, names, empty_sets=False, multi=True):
-    how = draw(st.sampled_from(["same", "same", "sub", "sub", "super", "fresh", "none"]))
+    how = draw(st.sampled_from(["same", "same", "sub", "sub", "super", "fresh", "none", "gap"]))
     if how == "none":
         return None
+    if how == "gap":
+        # a port (or range) between the smallest and largest port of a multi-port list, but not in it
+        ivs0 = R.port_set(p["op"], p["v"]) if p else ()
+        if len(ivs0) >= 2:
+            k = draw(st.integers(0, len(ivs0) - 2))
+            lo_, hi_ = ivs0[k][1] + 1, ivs0[k + 1][0] - 1
+            if draw(st.booleans()):
+                return {"op": "eq", "v": [draw(st.integers(lo_, hi_))], "nm": [-1]}
+            return {"op": "range", "v": [ivs0[0][0], ivs0[-1][1]], "nm": [-1, -1]}
+        how = "sub"
     if p is None or how == "fresh":
         return draw(port_st(platform, names, True, empty_sets, multi))
     if how == "same":
